@@ -97,7 +97,12 @@ def _write_h5(w, ev, slot, path, stamp=True):
     kw = {'generated_by': gen_by, 'compress': compress}
     if explicit_date:
         kw['creation_date'] = store.as_plain(when)
-    if route == 0:
+    if route == 0 and (a >> 4) & 1:
+        # documented positional order: h5grp, generated_by, compress,
+        # format_fs, creation_date
+        with h5py.File(path, 'w') as f:
+            t.to_hdf5(f, gen_by, compress, None, kw.get('creation_date'))
+    elif route == 0:
         with h5py.File(path, 'w') as f:
             t.to_hdf5(f, **kw)
     elif route == 1:
@@ -410,8 +415,13 @@ def c14_subset(w, ev, slot):
             w.case('c14.subset', 'from_hdf5', slot, ax=ax)
             try:
                 with h5py.File(path, 'r') as f:
-                    got = Table.from_hdf5(f, ids=list(names),
-                                          axis=AXNAME[ax])
+                    if (a >> 3) & 1:
+                        got = Table.from_hdf5(f, list(names), AXNAME[ax])
+                    else:
+                        got = Table.from_hdf5(f, ids=[list(names),
+                                                      tuple(names),
+                                                      np.array(names)][
+                            (a >> 4) % 3], axis=AXNAME[ax])
             except Exception as e:  # noqa
                 w.fail('c14.subset_raised', 'from_hdf5(ids=%r, %s) raised %r'
                        % (names, AXNAME[ax], e),
